@@ -76,6 +76,17 @@ def rule_ro(ctx) -> None:
         if not nodes:
             nodes = [n for n in cfg.nodes if n.ast is not None and getattr(n.ast, "lineno", -1) <= line <= getattr(n.ast, "end_lineno", -1) and n.kind == "stmt"]
         feasible = [n for n in nodes if not _dry_infeasible(cfg, n)]
+        if feasible and e.via:
+            # the callee may rule the dry run out itself (`if bool(getattr(ctx, "_dry_run_until_t4", False)): return None` on top):
+            # the store is infeasible when, inside the callee, it lies behind that test
+            cq = e.via[-1].partition("@")[0]
+            cal = ctx.prog.funcs.get(cq)
+            if cal is not None:
+                ccfg = ctx.cfg(cal)
+                wl = int(e.where.rsplit(":", 1)[1])
+                cn = [m for m in ccfg.nodes if m.ast is not None and m.kind in ("stmt", "cond") and getattr(m.ast, "lineno", -1) <= wl <= getattr(m.ast, "end_lineno", -1)]
+                if cn and all(any((not pol) and "_dry_run_until_t4" in t for t, pol in ccfg.facts(m)) for m in cn):
+                    feasible = []
         groups.setdefault(site, []).append((e, bool(feasible), line))
     n_inf = 0
     for site, items in sorted(groups.items()):
